@@ -303,7 +303,68 @@ def msgSignerInfo (contentType : Bytes) (c : Bytes) : Option (Bytes × Bytes × 
               | none => none
               | some (sig, r5) => if r5 ≠ [] then none else some (sid, attrs, md, sig)
 
-def msgSignedData (sd : Bytes) : Option SigMsgD :=
+/-- encapContentInfo: content type (which must be the protocol one), content, what follows -/
+def msgEncap (r1 : Bytes) : Option (Bytes × Bytes × Bytes) :=
+  match takeCons tagSeq r1 with
+  | none => none
+  | some (ec, r2) =>
+    match takeOid ec with
+    | none => none
+    | some (contentType, er) =>
+      match takeCons 0xA0 er with
+      | none => none
+      | some (oc, er2) =>
+        if er2 ≠ [] then none else
+        match takePrim tagOctetString oc with
+        | none => none
+        | some (content, or2) =>
+          if or2 ≠ [] then none
+          else if contentType ≠ oidProtocolContentType then none
+          else some (contentType, content, r2)
+
+/-- `take_id_cert`: `[0]` with exactly one constructed value, which must be a SEQUENCE -/
+def msgCertPart (r2 : Bytes) : Option (IdCertD × Bytes) :=
+  match takeCons 0xA0 r2 with
+  | none => none
+  | some (cc, r3) =>
+    match cc with
+    | [] => none
+    | t :: _ =>
+      if t % 32 = 31 then none
+      else if !isCons t then none
+      else match readTlv cc with
+        | none => none
+        | some (_, certc, cr) =>
+          if tagNoCons t ≠ 0x10 then none
+          else match idCertBody certc with
+            | none => none
+            | some cert => if cr ≠ [] then none else some (cert, r3)
+
+/-- `take_crl`: `[1]` with exactly one CRL -/
+def msgCrlPart (r3 : Bytes) : Option (MsgCrlD × Bytes) :=
+  match takeCons 0xA1 r3 with
+  | none => none
+  | some (lc, r4) =>
+    match takeCons tagSeq lc with
+    | none => none
+    | some (crlc, lr) =>
+      if lr ≠ [] then none else
+      match msgCrlBody crlc with
+      | none => none
+      | some crl => some (crl, r4)
+
+/-- signerInfos: a SET with exactly one SignerInfo, nothing after it -/
+def msgSignerPart (contentType r4 : Bytes) : Option (Bytes × Bytes × Bytes × Bytes) :=
+  match takeCons tagSet r4 with
+  | none => none
+  | some (sis, r5) =>
+    if r5 ≠ [] then none else
+    match takeCons tagSeq sis with
+    | none => none
+    | some (si, sr) => if sr ≠ [] then none else msgSignerInfo contentType si
+
+/-- version and digestAlgorithms in front of the encapContentInfo -/
+def msgHead (sd : Bytes) : Option Bytes :=
   match skipU8 3 sd with
   | none => none
   | some r0 =>
@@ -312,62 +373,25 @@ def msgSignedData (sd : Bytes) : Option SigMsgD :=
     | some (dc, r1) =>
       match takeDigestAlg dc with
       | none => none
-      | some dr =>
-        if dr ≠ [] then none else
-        match takeCons tagSeq r1 with
+      | some dr => if dr ≠ [] then none else some r1
+
+def msgSignedData (sd : Bytes) : Option SigMsgD :=
+  match msgHead sd with
+  | none => none
+  | some r1 =>
+    match msgEncap r1 with
+    | none => none
+    | some (contentType, content, r2) =>
+      match msgCertPart r2 with
+      | none => none
+      | some (cert, r3) =>
+        match msgCrlPart r3 with
         | none => none
-        | some (ec, r2) =>
-          match takeOid ec with
+        | some (crl, r4) =>
+          match msgSignerPart contentType r4 with
           | none => none
-          | some (contentType, er) =>
-            match takeCons 0xA0 er with
-            | none => none
-            | some (oc, er2) =>
-              if er2 ≠ [] then none else
-              match takePrim tagOctetString oc with
-              | none => none
-              | some (content, or2) =>
-                if or2 ≠ [] then none
-                else if contentType ≠ oidProtocolContentType then none else
-                match takeCons 0xA0 r2 with
-                | none => none
-                | some (cc, r3) =>
-                  -- `take_constructed(|tag, cons| …)`: any constructed value, which must be a SEQUENCE
-                  match cc with
-                  | [] => none
-                  | t :: _ =>
-                    if t % 32 = 31 then none
-                    else if !isCons t then none
-                    else match readTlv cc with
-                      | none => none
-                      | some (_, certc, cr) =>
-                        if tagNoCons t ≠ 0x10 then none
-                        else match idCertBody certc with
-                          | none => none
-                          | some cert =>
-                            if cr ≠ [] then none else
-                            match takeCons 0xA1 r3 with
-                            | none => none
-                            | some (lc, r4) =>
-                              match takeCons tagSeq lc with
-                              | none => none
-                              | some (crlc, lr) =>
-                                if lr ≠ [] then none else
-                                match msgCrlBody crlc with
-                                | none => none
-                                | some crl =>
-                                  match takeCons tagSet r4 with
-                                  | none => none
-                                  | some (sis, r5) =>
-                                    if r5 ≠ [] then none else
-                                    match takeCons tagSeq sis with
-                                    | none => none
-                                    | some (si, sr) =>
-                                      if sr ≠ [] then none else
-                                      match msgSignerInfo contentType si with
-                                      | none => none
-                                      | some (sid, attrs, md, sig) =>
-                                        some { content, cert, crl, sid, attrs, messageDigest := md, signature := sig }
+          | some (sid, attrs, md, sig) =>
+            some { content, cert, crl, sid, attrs, messageDigest := md, signature := sig }
 
 /-- `SignedMessage::decode(source, strict = true)` -/
 def decodeSigMsg (b : Bytes) : Option SigMsgD :=
